@@ -71,7 +71,23 @@ def classify(kf, rec):
         import c01
         return o.get("list_spacing") == "preserve" and c01.loose_list_in_tight_item(c.get("parser_input") or doc)
     if cl == "nested-quotes-second-pass":
-        return bool(o.get("smartquotes")) and bool(re.search(r"[\u201c\u2018][^\u201d\u2019]*['\"]", o1))
+        if not o.get("smartquotes"):
+            return False
+        if re.search(r"[\u201c\u2018][^\u201d\u2019]*['\"]", o1):
+            return True
+        # the second pass only curls quotes the first left straight, and each of them stands inside a quotation the first pass did
+        # curl (an opening curly quote earlier in the same paragraph that is not closed yet); apostrophes may lie in between
+        o2 = c.get("pass2", "")
+        if not o2 or len(o2) != len(o1):
+            return False
+        changed = [i for i, (a, b) in enumerate(zip(o1, o2)) if a != b]
+        if not changed or any(not (o1[i] in "'\"" and o2[i] in "\u2018\u2019\u201c\u201d") for i in changed):
+            return False
+        for i in changed:
+            para = o1[:i].rsplit("\n\n", 1)[-1]
+            if not (para.rfind("\u201c") > para.rfind("\u201d") or "\u2018" in para):      # the last double curly quote is an opening one
+                return False
+        return True
     if cl == "quote-blank-line-trailing-space":
         o2 = c.get("pass2", "")
         return [l.rstrip() for l in o1.split("\n")] == [l.rstrip() for l in o2.split("\n")] and \
